@@ -51,6 +51,9 @@ type bsim struct {
 	permuteMods  bool
 	permuteLists bool
 	lintUse      []string
+	extPrefix    []string // per module: what external paths are prefixed with
+	refErrors    []refError
+	filterTypes  []string
 	lintExcept   []string
 	permutePaths bool
 	faults       bool
@@ -63,7 +66,21 @@ type bsim struct {
 	counters     map[string]int
 }
 
+// Each check reports only what its own property states. An image that is a correct compilation
+// but differs between two executions (say, another valid file order) breaks C02 and not C01; a
+// wrong image that is wrong in the same way on every execution breaks C01 and not C02.
+var c02Oracles = map[string]bool{"output-identical": true, "schedule-independence": true, "harness-reference": true}
+var c02OnlyOracles = map[string]bool{"output-identical": true, "fault-transparency": true}
+
 func (m *bsim) violate(oracle, site, format string, args ...any) {
+	if m.prop == "C02" && !c02Oracles[oracle] {
+		m.counters["other-property:"+oracle]++
+		return
+	}
+	if m.prop == "C01" && c02OnlyOracles[oracle] {
+		m.counters["other-property:"+oracle]++
+		return
+	}
 	m.s.Violate(oracle, m.prop+"|"+oracle+"|"+site, format, args...)
 }
 
@@ -142,9 +159,28 @@ func (m *bsim) buildModuleSet(ctx context.Context, files map[string]string) (buf
 	if m.permuteMods {
 		order = m.tp.Perm("modorder", len(order))
 	}
+	// files that exist only in this version of the workspace go to the first targeted module
+	// that is built without path restrictions
+	extraOwner := -1
+	for i, mod := range m.ws.Modules {
+		if mod.Targeted && mod.ProtoFileTarget == "" && len(mod.TargetPaths) == 0 && len(mod.ExcludePaths) == 0 {
+			extraOwner = i
+			break
+		}
+	}
 	for _, i := range order {
 		mod := m.ws.Modules[i]
 		mem := storagemem.NewReadWriteBucket()
+		if i == extraOwner {
+			for _, p := range simfs.SortedKeys(files) {
+				if strings.HasPrefix(p, wsgen.RemovedPrefix) {
+					if err := m.putWithExternalPath(mem, i, p, []byte(files[p])); err != nil {
+						panic(err)
+					}
+					m.s.Probe("previous-version-has-deleted-files")
+				}
+			}
+		}
 		for p, c := range mod.ModuleFiles() {
 			content := c
 			if files != nil {
@@ -152,7 +188,7 @@ func (m *bsim) buildModuleSet(ctx context.Context, files map[string]string) (buf
 					content = []byte(alt)
 				}
 			}
-			if err := storage.PutPath(context.Background(), mem, p, content); err != nil {
+			if err := m.putWithExternalPath(mem, i, p, content); err != nil {
 				panic(err)
 			}
 		}
@@ -177,6 +213,31 @@ func (m *bsim) buildModuleSet(ctx context.Context, files map[string]string) (buf
 		builder.AddLocalModule(bucket, fmt.Sprintf("bucket-%d", i), mod.Targeted, opts...)
 	}
 	return builder.Build()
+}
+
+// externalPath is the path the user would have given for a file of module i: the module's
+// directory as named on the command line (tape-chosen spelling), then the path.
+func (m *bsim) externalPath(module int, path string) string {
+	if module >= len(m.extPrefix) || m.extPrefix[module] == "" {
+		return path
+	}
+	return m.extPrefix[module] + "/" + path
+}
+
+func (m *bsim) putWithExternalPath(bucket storage.WriteBucket, module int, path string, content []byte) error {
+	woc, err := bucket.Put(context.Background(), path)
+	if err != nil {
+		return err
+	}
+	if ext := m.externalPath(module, path); ext != path {
+		if err := woc.SetExternalPath(ext); err != nil {
+			return err
+		}
+	}
+	if _, err := woc.Write(content); err != nil {
+		return err
+	}
+	return woc.Close()
 }
 
 // pipeline is what a buf invocation does with a workspace: build, then derive outputs.
@@ -283,6 +344,45 @@ func (m *bsim) reference() (map[string]*descriptorpb.FileDescriptorProto, error)
 		collect(f, out)
 	}
 	return out, nil
+}
+
+// refError is one diagnostic of the reference compiler.
+type refError struct {
+	path      string
+	line, col int
+	msg       string
+}
+
+// referenceErrors compiles the targets with protocompile directly (one worker, no buf code) and
+// returns every error it reports, in order.
+func (m *bsim) referenceErrors() []refError {
+	accessor := func(path string) (io.ReadCloser, error) {
+		if f, ok := m.ws.Files[path]; ok {
+			return io.NopCloser(strings.NewReader(f.Content)), nil
+		}
+		if datawkt.Exists(path) {
+			return io.NopCloser(strings.NewReader(wktContent(path))), nil
+		}
+		return nil, fs.ErrNotExist
+	}
+	var out []refError
+	add := func(e reporter.ErrorWithPos) {
+		pos := e.GetPosition()
+		out = append(out, refError{path: pos.Filename, line: pos.Line, col: pos.Col, msg: e.Unwrap().Error()})
+	}
+	compiler := protocompile.Compiler{
+		MaxParallelism: 1,
+		SourceInfoMode: protocompile.SourceInfoExtraOptionLocations,
+		Resolver:       &protocompile.SourceResolver{Accessor: accessor},
+		Reporter:       reporter.NewReporter(func(e reporter.ErrorWithPos) error { add(e); return nil }, func(reporter.ErrorWithPos) {}),
+	}
+	_, err := compiler.Compile(context.Background(), m.ws.Targets()...)
+	if err != nil && len(out) == 0 {
+		if e, ok := err.(reporter.ErrorWithPos); ok {
+			add(e)
+		}
+	}
+	return out
 }
 
 func collect(fd protoFile, out map[string]*descriptorpb.FileDescriptorProto) {
@@ -425,7 +525,18 @@ func Run(tp *tape.Tape, env *engine.Env) *engine.Outcome {
 			}
 		}
 	}
+	for i := range m.ws.Modules {
+		m.extPrefix = append(m.extPrefix, tape.Pick(tp, "extprefix", []string{"", fmt.Sprintf("proj/mod%d", i), fmt.Sprintf("/abs/ws/mod%d", i), fmt.Sprintf("../rel%d", i), "."}))
+	}
 	var ref map[string]*descriptorpb.FileDescriptorProto
+	if mode == "planted" {
+		m.refErrors = m.referenceErrors()
+		if m.ws.Closure()[m.ws.Planted.Path] && len(m.refErrors) == 0 {
+			s.Violate("harness-reference", "harness|planted-not-an-error", "the planted %s in %s is not an error for the reference compiler", m.ws.Planted.PlantKind, m.ws.Planted.Path)
+			s.Drain()
+			return engine.FromSim(s)
+		}
+	}
 	if mode != "planted" {
 		var err error
 		ref, err = m.reference()
@@ -434,6 +545,9 @@ func Run(tp *tape.Tape, env *engine.Env) *engine.Outcome {
 			s.Drain()
 			return engine.FromSim(s)
 		}
+	}
+	if m.prop == "C02" && ref != nil {
+		m.filterTypes = m.drawFilterTypes(ref)
 	}
 	ntasks := len(m.ws.Files) + 6
 
@@ -631,12 +745,19 @@ func (m *bsim) checkPlanted(res *result, site string) {
 		return
 	}
 	if res.err == nil {
-		m.violate("planted-error", site, "workspace with an undefined type in %s:%d built without error", f.Path, f.ErrorLine)
+		m.violate("planted-error", site, "workspace with a planted error (%s) in %s built without error", f.PlantKind, f.Path)
 		return
 	}
 	var set bufanalysis.FileAnnotationSet
 	if !errors.As(res.err, &set) {
 		m.violate("planted-error", site, "expected a FileAnnotationSet, got %T: %v", res.err, res.err)
+		return
+	}
+	// the diagnostic the compiler itself gives first, at the path the user gave
+	want := m.refErrors[0]
+	wantPath := m.externalPath(f.Module, want.path)
+	if f.ErrorLine != 0 && (want.path != f.Path || want.line != f.ErrorLine || want.col != f.ErrorColumn) {
+		m.s.Violate("harness-reference", "harness|planted-position", "reference compiler reports %s:%d:%d, planted at %s:%d:%d", want.path, want.line, want.col, f.Path, f.ErrorLine, f.ErrorColumn)
 		return
 	}
 	ok := false
@@ -646,15 +767,19 @@ func (m *bsim) checkPlanted(res *result, site string) {
 		if a.FileInfo() != nil {
 			path = a.FileInfo().ExternalPath()
 		}
-		seen = append(seen, fmt.Sprintf("%s:%d:%d", path, a.StartLine(), a.StartColumn()))
-		if path == f.Path && a.StartLine() == f.ErrorLine && a.StartColumn() == f.ErrorColumn {
+		seen = append(seen, fmt.Sprintf("%s:%d:%d:%s", path, a.StartLine(), a.StartColumn(), a.Message()))
+		if path == wantPath && a.StartLine() == want.line && a.StartColumn() == want.col {
 			ok = true
+		}
+		if path != m.externalPath(f.Module, f.Path) {
+			m.violate("planted-error", site+"|other-file", "the only error is in %s but a diagnostic points at %q", f.Path, path)
 		}
 	}
 	if !ok {
-		m.violate("planted-error", site, "no annotation at %s:%d:%d; got %v", f.Path, f.ErrorLine, f.ErrorColumn, seen)
+		m.violate("planted-error", site, "no diagnostic %s:%d:%d:%s (kind %s); got %v", wantPath, want.line, want.col, want.msg, f.PlantKind, seen)
 	} else {
 		m.s.Probe("planted-error-located")
+		m.s.Probe("planted-" + f.PlantKind)
 	}
 }
 
